@@ -154,6 +154,7 @@ func Run(c *core.Ctx) int {
 		}
 	}
 	errorBound(c, docs, res)
+	taxRows(c, docs, res)
 	// every other public operation that hands back a calculated document (see internal/calcproto/ops.go)
 	var replayDoc *calcproto.Doc
 	if len(docs) == 1 && rc.Doc != nil {
@@ -336,11 +337,14 @@ func errorBound(c *core.Ctx, docs []*calcproto.Doc, res []Result) {
 			continue
 		}
 		cf := strings.Fields(cout[k])
-		if len(cf) != 3 || cf[0] != "ok" {
+		if len(cf) != 4 || cf[0] != "ok" {
 			c.TieBroken("drive:C01/class", "unexpected answer "+cout[k], Case{d})
 			continue
 		}
-		inClass := cf[1] == "1"
+		// "1": class of decided_class_bound; "2": class of decided_class_bound_included
+		// (prices including one tax category; tax_included is held to the bound too)
+		inClass := cf[1] == "1" || cf[1] == "2"
+		included := cf[1] == "2"
 		weight, _ := strconv.ParseInt(cf[2], 10, 64)
 		inv := d.Invoice()
 		if inv.Calculate() != nil || inv.Totals == nil {
@@ -362,12 +366,32 @@ func errorBound(c *core.Ctx, docs []*calcproto.Doc, res []Result) {
 			c.Count("error-bound:documents", 1)
 		}
 		var proved *big.Rat
+		provedBy := ""
 		if inClass {
 			c.Count("error-bound:in-proved-class", 1)
 			if weight < 100 {
 				c.Count("error-bound:in-proved-class-weight<100", 1)
 			}
+			if included {
+				c.Count("error-bound:in-proved-class-included", 1)
+				if weight < 100 {
+					c.Count("error-bound:in-proved-class-included-weight<100", 1)
+				}
+			}
 			proved = new(big.Rat).Mul(unit, new(big.Rat).Add(big.NewRat(1, 2), big.NewRat(weight, 200)))
+			// the tight weight (actual percentages, Props.C01.decided_class_bound_tight): a
+			// rational; when given, the real output is held to this smaller bound
+			if tw, ok := new(big.Rat).SetString(cf[3]); ok && cf[3] != "-" {
+				c.Count("error-bound:in-proved-class-tight", 1)
+				if tw.Cmp(big.NewRat(100, 1)) < 0 {
+					c.Count("error-bound:in-proved-class-tight-weight<100", 1)
+				}
+				tight := new(big.Rat).Mul(unit, new(big.Rat).Add(big.NewRat(1, 2), new(big.Rat).Quo(tw, big.NewRat(200, 1))))
+				if tight.Cmp(proved) < 0 {
+					proved = tight
+					provedBy = "theorem:C01/decided_class_bound_tight"
+				}
+			}
 		}
 		worst := new(big.Rat)
 		for j, a := range got {
@@ -385,7 +409,14 @@ func errorBound(c *core.Ctx, docs []*calcproto.Doc, res []Result) {
 				worst.Set(diff)
 			}
 			if proved != nil && diff.Cmp(proved) > 0 {
-				c.TieBroken("theorem:C01/decided_class_bound", fmt.Sprintf("totals.%s = %s is further from the unrounded exact value %s than the bound proved for the document class (weight %d)", names[j], a.String(), want.FloatString(int(sub)+6), weight), Case{d})
+				thm := "theorem:C01/decided_class_bound"
+				if included {
+					thm = "theorem:C01/decided_class_bound_included"
+				}
+				if provedBy != "" {
+					thm = provedBy
+				}
+				c.TieBroken(thm, fmt.Sprintf("totals.%s = %s is further from the unrounded exact value %s than the bound proved for the document class (weight %d, tight weight %s)", names[j], a.String(), want.FloatString(int(sub)+6), weight, cf[3]), Case{d})
 			}
 			if diff.Cmp(unit) >= 0 && !large[k] {
 				cls := ""
@@ -404,6 +435,130 @@ func errorBound(c *core.Ctx, docs []*calcproto.Doc, res []Result) {
 		half := new(big.Rat).Mul(unit, big.NewRat(1, 2))
 		if worst.Cmp(half) > 0 && !large[k] {
 			c.Count("error-bound:over-half-unit", 1)
+		}
+	}
+}
+
+// taxRows holds the rows of the real tax summary (category amount and
+// surcharge; rate-group base, amount and surcharge) of every generated
+// document of the decided class (Spec/C01.lean inDocI) to the bounds of
+// Props.C01.tax_rows_decided: half a minor unit plus weight/200 units from the
+// exact rational value the driver computes (Spec/C01.lean catAmountQ,
+// catSurchargeQ, groupBaseQ).  Rows are matched by position; the whole output
+// is compared with the model elsewhere, so a different shape is only counted.
+func taxRows(c *core.Ctx, docs []*calcproto.Doc, res []Result) {
+	var reqs []string
+	var idx []int
+	for i, d := range docs {
+		r := res[i]
+		if r.GoErr != "" || r.Skipped != "" || !r.Agree || effectiveRule(d) != "precise" || len(d.Lines) == 0 {
+			continue
+		}
+		reqs = append(reqs, "taxrows "+strings.TrimPrefix(r.Req, "calc "))
+		idx = append(idx, i)
+	}
+	out, err := c.ModelProp("C01", reqs)
+	if err != nil {
+		c.TieBroken("drive:C01/taxrows", err.Error(), nil)
+		return
+	}
+	for k, i := range idx {
+		d := docs[i]
+		f := strings.Fields(out[k])
+		if len(f) < 2 || f[0] != "ok" {
+			c.TieBroken("drive:C01/taxrows", "unexpected answer "+out[k], Case{d})
+			continue
+		}
+		if f[1] != "1" {
+			continue
+		}
+		inv := d.Invoice()
+		if inv.Calculate() != nil || inv.Totals == nil || inv.Totals.Taxes == nil {
+			continue
+		}
+		sub := uint32(2)
+		if def := inv.Currency.Def(); def != nil {
+			sub = def.Subunits
+		}
+		unit := new(big.Rat).SetFrac(big.NewInt(1), new(big.Int).Exp(big.NewInt(10), big.NewInt(int64(sub)), nil))
+		rat := func(v int64, e uint32) *big.Rat {
+			return new(big.Rat).SetFrac(big.NewInt(v), new(big.Int).Exp(big.NewInt(10), big.NewInt(int64(e)), nil))
+		}
+		// bound = unit x (1/2 + w/200)
+		bound := func(w *big.Rat) *big.Rat {
+			return new(big.Rat).Mul(unit, new(big.Rat).Add(big.NewRat(1, 2), new(big.Rat).Quo(w, big.NewRat(200, 1))))
+		}
+		held := func(what string, got num.Amount, want, w *big.Rat) {
+			c.Count("tax-rows:figures", 1)
+			diff := new(big.Rat).Sub(rat(got.Value(), got.Exp()), want)
+			diff.Abs(diff)
+			if diff.Cmp(bound(w)) > 0 {
+				c.TieBroken("theorem:C01/tax_rows_decided", fmt.Sprintf("%s = %s is further from the exact value %s than the proved bound (weight %s)", what, got.String(), want.FloatString(int(sub)+6), w.FloatString(3)), Case{d})
+			}
+		}
+		cats := inv.Totals.Taxes.Categories
+		n, _ := strconv.Atoi(f[2])
+		if n != len(cats) {
+			c.Count("tax-rows:shape-differs", 1)
+			continue
+		}
+		c.Count("tax-rows:documents", 1)
+		pos := 3
+		ok := true
+		for _, ct := range cats {
+			if pos+7 > len(f) || f[pos] != "k" {
+				ok = false
+				break
+			}
+			first := f[pos+2] == "1"
+			amtQ, ok1 := new(big.Rat).SetString(f[pos+3])
+			surQ, ok2 := new(big.Rat).SetString(f[pos+4])
+			w, ok3 := new(big.Rat).SetString(f[pos+5])
+			ng, _ := strconv.Atoi(f[pos+6])
+			pos += 7
+			if !ok1 || !ok2 || !ok3 || ng != len(ct.Rates) {
+				ok = false
+				break
+			}
+			if first {
+				c.Count("tax-rows:categories", 1)
+				held("category "+ct.Code.String()+" amount", ct.Amount, amtQ, w)
+				if ct.Surcharge != nil {
+					held("category "+ct.Code.String()+" surcharge", *ct.Surcharge, surQ, w)
+				}
+			}
+			for _, rt := range ct.Rates {
+				if pos+3 > len(f) || f[pos] != "g" {
+					ok = false
+					break
+				}
+				baseQ, ok4 := new(big.Rat).SetString(f[pos+1])
+				wb, ok5 := new(big.Rat).SetString(f[pos+2])
+				pos += 3
+				if !ok4 || !ok5 {
+					ok = false
+					break
+				}
+				c.Count("tax-rows:groups", 1)
+				name := "category " + ct.Code.String() + " group " + rt.Key.String()
+				held(name+" base", rt.Base, baseQ, wb)
+				if rt.Percent != nil {
+					p := rat(rt.Percent.Value(), rt.Percent.Exp())
+					pa := new(big.Rat).Abs(p)
+					held(name+" amount", rt.Amount, new(big.Rat).Mul(baseQ, p), new(big.Rat).Add(big.NewRat(1, 1), new(big.Rat).Mul(pa, wb)))
+					if rt.Surcharge != nil {
+						sp := rat(rt.Surcharge.Percent.Value(), rt.Surcharge.Percent.Exp())
+						spa := new(big.Rat).Abs(sp)
+						held(name+" surcharge", rt.Surcharge.Amount, new(big.Rat).Mul(baseQ, sp), new(big.Rat).Add(big.NewRat(1, 1), new(big.Rat).Mul(spa, wb)))
+					}
+				}
+			}
+			if !ok {
+				break
+			}
+		}
+		if !ok {
+			c.Count("tax-rows:shape-differs", 1)
 		}
 	}
 }
